@@ -26,6 +26,7 @@ import (
 	"fmt"
 	"io"
 	"net/http"
+	"net/url"
 	"runtime"
 	"strings"
 	"testing"
@@ -35,7 +36,7 @@ import (
 	"github.com/modelcontextprotocol/go-sdk/internal/verifx"
 )
 
-const c13HTTPSymbols = "ASCX5ETHMI"
+const c13HTTPSymbols = "ASCX5ETHMID" // D: the ping's POST is dropped - its connection ends without a response (net/http reports EOF)
 
 // c13Body is a scripted response body: data, then a clean end, an error, or silence until the
 // request ends.
@@ -66,7 +67,7 @@ func c13HTTPBase(c byte) byte {
 	switch c {
 	case 'A', 'S', 'I':
 		return 'A'
-	case 'C', 'X', '5', 'E':
+	case 'C', 'X', '5', 'E', 'D':
 		return 'E'
 	case 'T', 'H':
 		return 'T'
@@ -149,6 +150,8 @@ func c13HTTPCase(interval time.Duration, threshold, maxRetries int, pattern stri
 				return mk(req, 200, "application/json", `{"jsonrpc":"2.0","id":`+string(m.ID)+`,"error":{"code":-32000,"message":"busy"}}`, "eof"), nil
 			case 'M':
 				return mk(req, 200, "application/json", `{"jsonrpc":"2.0","id":`+string(m.ID)+`,"error":{"code":-32601,"message":"method not found"}}`, "eof"), nil
+			case 'D':
+				return nil, &url.Error{Op: "Post", URL: req.URL.String(), Err: io.EOF}
 			case 'T':
 				<-req.Context().Done()
 				return nil, req.Context().Err()
